@@ -161,6 +161,8 @@ func checkC02(c *Ctx) {
 	c.Rule("R9", "a writer blocked in a socket write is woken: the connection is closed after the reader returns and before the writer is joined (shared with C07.R2); no lock is held at a join that the joined goroutines need (shared with C09.R7)")
 	checkCloseBeforeJoin(c, "R9")
 	c.withAlias(map[string]string{"R7": "R9"}, func() { checkWaitForCycles(c) })
+	c.Rule("R11", "hook lists (and every other slice field grown in place) own their spare capacity: no initialisation with a two-index sub-slice of storage shared with siblings")
+	checkAppendableFieldsOwnTheirStorage(c, "R11")
 	c.Rule("R10", "a shared connect attempt answers every waiter (shared with C07.R1): the winner stores the connection or the error it returns into the in-flight entry before it releases the waiters, and deletes the entry on every path")
 	if calls := p.Field(redisPkg, "upstream", "createClientCalls"); calls != nil {
 		checkSingleflightEntry(c, "R10", calls)
@@ -1192,4 +1194,83 @@ func refsOf(v ssa.Value) []ssa.Instruction {
 		}
 	}
 	return out
+}
+
+// checkAppendableFieldsOwnTheirStorage (C02.R11, C04.R9): a slice field that is grown in place (x.f = append(x.f, ...))
+// must own the spare capacity behind its length. Initialising it with a two-index sub-slice of a slab shared with its
+// siblings gives it the siblings' storage as capacity: the append that exceeds the reserved part overwrites the first
+// element of the next sibling - for the hook lists of split requests that is the sibling's completion hook, so the
+// parent is never completed. Such a field is initialised by its own allocation, nil, or a three-index slice.
+func checkAppendableFieldsOwnTheirStorage(c *Ctx, rule string) {
+	p := c.P
+	grown := map[*types.Var]bool{}
+	for _, fn := range p.FuncsIn(redisPkg) {
+		if p.isTestFn(fn) {
+			continue
+		}
+		eachInstr(fn, func(_ *ssa.BasicBlock, _ int, in ssa.Instruction) {
+			st, ok := in.(*ssa.Store)
+			if !ok {
+				return
+			}
+			f, base := fieldAddr(st.Addr)
+			if f == nil {
+				return
+			}
+			call, ok := st.Val.(*ssa.Call)
+			if !ok || !isBuiltin(call, "append") || len(call.Call.Args) == 0 {
+				return
+			}
+			if f2, b2 := loadedField(call.Call.Args[0]); f2 == f && b2 == base {
+				grown[f] = true
+			}
+		})
+	}
+	if len(grown) == 0 {
+		c.Unresolved(rule, "no slice field grown in place in proc/redis")
+		return
+	}
+	n, nbad := 0, 0
+	for _, fn := range p.FuncsIn(redisPkg) {
+		if p.isTestFn(fn) {
+			continue
+		}
+		eachInstr(fn, func(_ *ssa.BasicBlock, _ int, in ssa.Instruction) {
+			st, ok := in.(*ssa.Store)
+			if !ok {
+				return
+			}
+			f, _ := fieldAddr(st.Addr)
+			if f == nil || !grown[f] {
+				return
+			}
+			n++
+			sl, ok := st.Val.(*ssa.Slice)
+			if !ok || sl.Max != nil {
+				return
+			}
+			// a slice of a fresh array that nothing else slices owns its storage (make with constant sizes and
+			// slice literals are lowered to this form)
+			if al, ok := sl.X.(*ssa.Alloc); ok && al.Heap {
+				others := 0
+				for _, r := range *al.Referrers() {
+					if o, isSl := r.(*ssa.Slice); isSl && o != sl {
+						others++
+					}
+				}
+				if others == 0 {
+					return
+				}
+			}
+			// x.f[:0] of the field itself (reset) keeps its own storage
+			if f2, _ := loadedField(sl.X); f2 == f {
+				return
+			}
+			nbad++
+			c.Fail(rule, fmt.Sprintf("%s initialises %s.%s with a capacity-unbounded sub-slice#%d", fnKey(fn), ownerOf(p, f), f.Name(), nbad), st.Pos(), "a slice field that is grown in place is initialised with a two-index sub-slice of shared storage: its capacity reaches into the storage of its siblings, and the append that exceeds the reserved part overwrites a sibling's first element (for the hook list of a split request: the sibling's completion hook - the parent request is then never answered)")
+		})
+	}
+	if nbad == 0 {
+		c.OK(rule, "fields grown in place own their spare capacity", token.NoPos, fmt.Sprintf("%d fields grown in place, %d stores into them examined", len(grown), n))
+	}
 }
